@@ -151,15 +151,17 @@ def metamorphic(seed, tier):
     wit = []
     stats = {'same_seed_pairs': 0, 'hashseed_runs': 0, 'split_pairs': 0, 'merge_decided_by_tiebreak': 0,
              'multiprocess_settings': 0}
-    fams = ['floor', 'floorc', 'env']
+    fams = ['floor', 'floors', 'floorpf', 'env']
     evals = 0
     # 1. same seed twice, unpatched weights (asset-id counter differs between the two runs)
     for fam in fams:
         sc = scen.generate(fam, f'c14-{seed}-{tier}', n // 2)
         for s in sc:
-            text = scen.to_text(s)
-            a = _strip(run_unkeyed(text, 12345))
+            text = scen.to_text([l for l in s if l[0] != 'idoff'])
             from simprocesd.model.factory_floor.asset import Asset
+            if rng.random() < 0.5:
+                Asset._id_counter = 0        # a fresh process: the first asset gets the very first id
+            a = _strip(run_unkeyed(text, 12345))
             Asset._id_counter += rng.randrange(1, 100)
             b = _strip(run_unkeyed(text, 12345))
             evals += 1
